@@ -27,8 +27,8 @@ class Disk:
     def __init__(self):
         self.files = {"/work": {"data": "", "mode": 0o755, "dir": True, "has_durable": True}}
 
-    def put(self, path, data, mode=0o644):
-        self.files[path] = {"data": b64(data), "mode": mode, "durable": b64(data), "has_durable": True}
+    def put(self, path, data, mode=0o644, mtime=None):
+        self.files[path] = {"data": b64(data), "mode": mode, "durable": b64(data), "has_durable": True, "mtime": int(NOW) if mtime is None else mtime}
 
     def mkdir(self, path, mode=0o755):
         self.files[path] = {"data": "", "mode": mode, "dir": True, "has_durable": True}
@@ -79,6 +79,18 @@ def gen_history(rnd, pairs, hid):
     for i in range(n):
         k = rnd.randrange(100)
         which = rnd.choice(["1", "2"])
+        if i > 0 and rnd.randrange(100) < 14:
+            # an input path gets another text between two invocations (a checkout, `cp -p`, `mv`, a re-pointed link):
+            # with an older, an equal or a newer modification time than what the path held before. What an
+            # invocation prints is a function of what its input paths hold now, not of what they held earlier.
+            other = "2" if which == "1" else "1"
+            kind = rnd.choice(["p", "p", "d"])
+            src = (p2 if which == "1" else p1)[0 if kind == "p" else 1] if rnd.randrange(100) < 80 else (p1 if which == "1" else p2)[0 if kind == "p" else 1]
+            steps.append({"op": "env", "what": "put", "path": "/work/%s%s.%s" % (kind, which, "yaml" if kind == "p" else "jsonld"), "src": src,
+                          "mtime_off": rnd.choice([-86400, -1, 0, 0, 3600]), "swap": True})
+            if rnd.randrange(100) < 70:
+                steps.append({"op": "run", "argv": rnd.choice([["validate", "p%s.yaml" % which, "d%s.jsonld" % which], ["validate", "p%s.yaml" % which, "d%s.jsonld" % which, out],
+                                                               ["generate", "p%s.yaml" % which]])})
         if k < 22:
             state = rnd.choice(["absent", "empty", "short", "longer", "longer", "other_report", "readonly", "directory",
                                 "same_report_leading_blank", "same_report_crlf", "same_report_one_byte_off", "same_report_plus_newline"])
@@ -170,7 +182,10 @@ class Exec:
         for si, st in enumerate(h["steps"]):
             if st["op"] == "env":
                 if st["what"] == "put":
-                    disk.put(st["path"], self.text(st["src"]))
+                    disk.put(st["path"], self.text(st["src"]), mtime=int(NOW) + st.get("mtime_off", 0))
+                    if st.get("swap"):
+                        probe("input_path_holds_another_text")
+                        rec["nontrivial"] = True
                 elif st["what"] == "mkdir":
                     disk.mkdir(st["path"])
                 elif st["what"] == "out_state":
@@ -242,8 +257,8 @@ class Exec:
                 rrc, rso, rse, _ = M.run_simacv(self.sc, self.simacv, refargv, {"files": before, "faults": []}, {"SIM_NOW": NOW})
                 self.ref_procs += 1
                 try:
-                    ref = json.loads(rso.decode())
-                except ValueError:
+                    ref = json.loads([l for l in rso.decode("utf8", "replace").split("\n") if l.startswith("@@SIMREF@@ ")][-1][11:])
+                except (ValueError, IndexError):
                     raise HarnessError("reference process failed (rc=%d): %s" % (rrc, rse[-500:]))
             ref_ok = bool(ref) and not ref["err"] and not ref.get("panic") and not ref.get("missing")
             outmode = cmd == "validate" and len(argv) == 4
